@@ -22,6 +22,7 @@ import (
 	"encoding/base64"
 	"fmt"
 	"strconv"
+	"strings"
 	"sync"
 	"time"
 	"unicode/utf8"
@@ -659,6 +660,9 @@ func (e *MetaCDC) validCreateRequest(req *request.CreateRequest) error {
 			if !utf8.ValidString(db) {
 				return servererror.NewClientError("the db name is not valid utf-8")
 			}
+			if strings.Contains(db, ".") {
+				return servererror.NewClientError(fmt.Sprintf("the db name must not contain '.', %s", db))
+			}
 			if len(db) > e.config.MaxNameLength {
 				return servererror.NewClientError(fmt.Sprintf("the db name length exceeds %d characters, %s", e.config.MaxNameLength, db))
 			}
@@ -672,6 +676,16 @@ func (e *MetaCDC) validCreateRequest(req *request.CreateRequest) error {
 		return err
 	}
 
+	for _, mapping := range req.NameMapping {
+		if strings.Contains(mapping.SourceDB, ".") || strings.Contains(mapping.TargetDB, ".") {
+			return servererror.NewClientError("the db name in the name mapping must not contain '.'")
+		}
+		for s, t := range mapping.CollectionMapping {
+			if strings.Contains(s, ".") || strings.Contains(t, ".") {
+				return servererror.NewClientError("the collection name in the name mapping must not contain '.'")
+			}
+		}
+	}
 	if req.RPCChannelInfo.Name != "" && req.RPCChannelInfo.Name != e.config.SourceConfig.ReplicateChan {
 		return servererror.NewClientError("the rpc channel is invalid, the channel name should be the same as the source config")
 	}
@@ -723,6 +737,9 @@ func (e *MetaCDC) checkCollectionInfos(infos []model.CollectionInfo) error {
 		}
 		if !utf8.ValidString(info.Name) {
 			return servererror.NewClientError("the collection name is not valid utf-8")
+		}
+		if strings.Contains(info.Name, ".") {
+			return servererror.NewClientError(fmt.Sprintf("the collection name must not contain '.', %s", info.Name))
 		}
 		if info.Name == cdcreader.AllCollection && len(infos) > 1 {
 			return servererror.NewClientError(fmt.Sprintf("make sure the only one collection if you want to use the '*' collection param, current param: %v",
